@@ -8,7 +8,8 @@
 //	(ii)  schedules: callers that are overtaken between reading the clock and updating the bucket
 //	      (the C06-stale-clock-overadmit regression), replayed deterministically;
 //	(iii) wall clock: NewFlowControl / Sync with 1-64 concurrent callers, one-sided judges;
-//	(iv)  end to end (e2e.go): the real handler chain and dispatcher: what is refused is answered 429.
+//	(iv)  end to end (e2e.go): the real handler chain and dispatcher: what is refused is answered 429;
+//	(v)   Sync histories (hist.go): which limiter serves a schema name, with which parameters, after any reconfiguration.
 package main
 
 import (
@@ -71,6 +72,8 @@ type Case struct {
 	Conc    int    `json:"conc,omitempty"`
 	DurMs   int    `json:"durMs,omitempty"`
 	IdleMs  int    `json:"idleMs,omitempty"`
+	// hist
+	Hist []HOp `json:"hist,omitempty"`
 }
 
 // Obs is what the Lean judge reads.
@@ -907,6 +910,20 @@ func runCase(c *rig.Ctx, cs Case, record bool) bool {
 		_, f = runReal(c, cs)
 	case "e2e":
 		_, f = runE2E(c, cs)
+	case "hist":
+		f = checkHist(c, cs)
+		if f != nil && record && len(cs.Hist) > 1 {
+			class := f.class
+			cs.Hist = rig.ShrinkList(cs.Hist, func(l []HOp) bool {
+				x := cs
+				x.Hist = l
+				g := checkHist(c, x)
+				return g != nil && g.class == class
+			})
+			if f2 := checkHist(c, cs); f2 != nil {
+				f = f2
+			}
+		}
 	default:
 		fmt.Fprintln(os.Stderr, "unknown case kind", cs.Kind)
 		os.Exit(2)
@@ -954,6 +971,7 @@ func main() {
 			"first call at the zero time / at the Sub saturation edge, and reconfigurations (unchanged, changed, swapped; presented plainly, with another schema added/removed, with the strategy toggled) " +
 			"through Resize or through UpstreamLimiter.Sync; distinct = distinct canonical script; non-trivial = both admitted and refused calls, or an effective reconfiguration. " +
 			"sched: callers overtaken between clock read and bucket update. real: wall-clock patterns (spin with 1-64 callers, idle-then-burst, unchanged re-sync under load). " +
+			"hist: UpstreamLimiter.Sync histories over 3 schema names changing type in every direction (exempt / max-in-flight / token bucket, with and without the global member, any strategy), deleted and re-added, ResetLimiter to remote without client sets, with a burst probe and spaced calls on every token bucket after every Sync; non-trivial = more than one Sync. " +
 			"e2e: the real handler chain + dispatcher in front of a scripted upstream, sequential prefix then 1-24 concurrent clients: 200 = forwarded, everything else must be 429.")
 		if c.Replay != "" {
 			var cs Case
@@ -1003,6 +1021,42 @@ func main() {
 			c.Case(rig.Canon(cs), true, "sched", func() interface{} { return cs })
 			c.Trace()
 			runCase(c, cs, true)
+		}
+		// Sync histories
+		nh := c.Budget(400, 12000)
+		for i := 0; i < nh && c.NFailures() < 5; i++ {
+			cs := genHist(c)
+			syncs, typeChanges := 0, 0
+			last := map[int]int{}
+			for _, op := range cs.Hist {
+				if op.Sync == nil {
+					continue
+				}
+				syncs++
+				now := map[int]int{}
+				for _, s := range *op.Sync {
+					k := 0
+					if s.MI != nil {
+						k = 1
+					} else if s.isTB() {
+						k = 2
+					}
+					now[s.Name] = k + 1
+					if last[s.Name] != 0 && last[s.Name] != k+1 && k == 2 {
+						typeChanges++
+					}
+				}
+				last = now
+			}
+			bucket := "hist"
+			if typeChanges > 0 {
+				bucket = "hist:type-change-to-token-bucket"
+			}
+			c.Case(rig.Canon(cs), syncs > 1, bucket, func() interface{} { return cs })
+			c.Trace()
+			if !runCase(c, cs, false) {
+				runCase(c, cs, true)
+			}
 		}
 		// scripts
 		n := c.Budget(3000, 100000)
